@@ -532,12 +532,13 @@ class _ChildrenList(_TaskList):
         :param key: attribute name or list of attribute names
         :param reverse: reverse sort
         """
+        # The list object is kept (only its content is replaced): lists obtained earlier stay valid
         if type(key) is str:
-            self._list = sorted(self._list, key=lambda x: x.__getattribute__(key), reverse=reverse)
+            self._list[:] = sorted(self._list, key=lambda x: x.__getattribute__(key), reverse=reverse)
         elif type(key) is list or type(key) is tuple or type(key) is set:
-            self._list = sorted(self._list,
-                                key=lambda x: '-'.join([str(x.__getattribute__(k)) for k in key]),
-                                reverse=reverse)
+            self._list[:] = sorted(self._list,
+                                   key=lambda x: '-'.join([str(x.__getattribute__(k)) for k in key]),
+                                   reverse=reverse)
         else:
             raise RuntimeError(f"Unsupported key type {type(key)}")
 
@@ -559,7 +560,7 @@ class _ChildrenList(_TaskList):
             new_list.append(ch)
             _all.remove(ch)
 
-        self._list = new_list + _all
+        self._list[:] = new_list + _all
         self.__setter(self._list)
 
 
@@ -894,7 +895,7 @@ class Task:
             if self in v.__successors:
                 v.__successors.remove(self)
 
-        self.__predecessors = [v for v in value]
+        self.__predecessors[:] = value
 
         for v in value:
             if self not in v.__successors:
@@ -945,7 +946,7 @@ class Task:
             if self in v.__predecessors:
                 v.__predecessors.remove(self)
 
-        self.__successors = [v for v in value]
+        self.__successors[:] = value
 
         for v in value:
             if self not in v.__predecessors:
